@@ -66,35 +66,11 @@ if [ "$ID" = "selftest-instrument" ]; then
   tail -30 "$SCR/test.log"; exit 1
 fi
 
-# --- sync.Pool seam: under the race detector Pool.Put drops objects at random
-# (runtime_randn) and the garbage collector empties pools at times that depend
-# on wall-clock pacing: both would make behaviour that depends on pooled
-# objects (a bug class of its own) vary between executions of one seed. In the
-# worker build Put never drops, the worker empties all pools before every run
-# (sync.VerifFlushPools, added by this overlay) and collects garbage only
-# between runs. With GOMAXPROCS=1 the pool is then a deterministic LIFO; its
-# per-object happens-before edges are the ones a real program has.
-# Overlay, not a GOROOT edit.
-GOROOT_DIR="$(go env GOROOT)"
-POOL="$GOROOT_DIR/src/sync/pool.go"
-grep -q 'if runtime_randn(4) == 0 {' "$POOL" && grep -q '^func poolCleanup() {' "$POOL" && grep -q 'allPoolsMu Mutex' "$POOL" || fail2 "sync/pool.go of this toolchain has an unexpected shape"
-OVL="$VERIF/bin/pool_overlay.$$.go"
-sed 's/if runtime_randn(4) == 0 {/if false \&\& runtime_randn(4) == 0 {/' "$POOL" > "$OVL"
-cat >> "$OVL" <<'EOP'
+# --- seams inside the standard library (sync.Pool, map iteration order): a
+# build overlay, generated from the toolchain's own sources (see mkoverlay.sh)
+OVERLAY="$("$VERIF/mkoverlay.sh")" || fail2 "generating the build overlay failed"
 
-// VerifFlushPools empties every pool. Added by /verif's build overlay for the
-// simulation worker, which calls it between runs while no task is running.
-func VerifFlushPools() {
-	allPoolsMu.Lock()
-	poolCleanup()
-	poolCleanup()
-	allPoolsMu.Unlock()
-}
-EOP
-mv "$OVL" "$VERIF/bin/pool_overlay.go"
-printf '{"Replace": {"%s": "%s"}}\n' "$POOL" "$VERIF/bin/pool_overlay.go" > "$VERIF/bin/overlay.json"
-
-( cd "$VERIF" && go build -race -trimpath -overlay "$VERIF/bin/overlay.json" -modfile="$SCR/go.mod" -o "$SCR/simworld" ./cmd/simworld ) >"$SCR/build.log" 2>&1 \
+( cd "$VERIF" && go build -race -trimpath -overlay "$OVERLAY" -modfile="$SCR/go.mod" -o "$SCR/simworld" ./cmd/simworld ) >"$SCR/build.log" 2>&1 \
   || { cat "$SCR/build.log" >&2; fail2 "building the instrumented worker failed (does the tree compile?)"; }
 
 [ "$MODE" = "build" ] && { echo "build ok"; exit 0; }
